@@ -58,9 +58,21 @@ func affixTexts(base string) []string {
 		add("\n" + base + "\n")
 		add(" " + base + " ")
 		add(base + base)
+		// two-sided forms: a lenient reader that strips a MATCHING pair (quotes, brackets, a token on both sides)
+		// never sees its trigger in the one-sided forms above
+		for _, t := range affixTokens {
+			add(t + base + t)
+		}
+		for _, p := range affixPairs {
+			add(p[0] + base + p[1])
+		}
 	}
 	return out
 }
+
+// affixPairs are opening / closing delimiters put around every valid base text.
+var affixPairs = [][2]string{{"'", "'"}, {"\"", "\""}, {"`", "`"}, {"(", ")"}, {"[", "]"}, {"{", "}"}, {"<", ">"}, {"\u00ab", "\u00bb"}, {"\u2018", "\u2019"}, {"\u201c", "\u201d"},
+	{"''", "''"}, {"\\\"", "\\\""}, {"[\"", "\"]"}, {"{d '", "'}"}, {"DATE '", "'"}, {"/", "/"}, {"*", "*"}, {"_", "_"}, {"|", "|"}, {"#", "#"}}
 
 // digit look-alikes: code point of the zero of each decimal block
 var lookalikeDigitZeros = []rune{0x0660, 0x06F0, 0x0966, 0xFF10, 0x1D7CE, 0x1D7D8, 0x07C0}
@@ -158,6 +170,33 @@ func extValues(n int) []int {
 func dateIs(d date.Date, y, m, dd int) bool {
 	gy, gm, gd := d.Date()
 	return gy == y && int(gm) == m && gd == dd
+}
+
+// dateSentinels are non-zero receivers for a decode whose expected result is (y, m, d): one far from it and one that
+// shares its year and month (a partial assignment or a merge then shows), both different from the expected value and from
+// the zero Date. A decode judged on a fresh zero variable cannot tell "assigned 0001-01-01" from "did not assign".
+func dateSentinels(y, m, d int) [2]date.Date {
+	a := date.New(1999, 9, 9)
+	if y == 1999 && m == 9 && d == 9 {
+		a = date.New(2001, 2, 3)
+	}
+	nd := d%28 + 1 // another existing day of the same month
+	return [2]date.Date{a, date.New(y, time.Month(m), nd)}
+}
+
+// longYearsFixed: 5 to 9 digit years every leap rule must be tried on — non-leap centuries, multiples of 400, ordinary leap and
+// non-leap years, and the values around the widths a narrowed integer could have (2^15, 2^16, 2^31/500, 2^32/1000 …).
+var longYearsFixed = []int{10000, 10001, 10004, 10100, 10400, 12345, 32767, 32768, 32772, 32800, 32900, 65535, 65536, 65540, 65600, 65636, 70000, 70100,
+	99999, 100000, 100100, 102400, 102500, 123456, 999999, 1000000, 1234567, 4294964, 4294967, 4294968, 4294900, 16777216, 16777300, 99999999, 123456789,
+	400000000, 400000100, 999999600, 999999900, 999999996, 999999999}
+
+// longYears returns the fixed list plus, per run, a random 5-9 digit year of each kind: any, multiple of 4, century, multiple of 400.
+func longYears(c *Ctx) []int {
+	out := append([]int{}, longYearsFixed...)
+	for i := 0; i < 3; i++ {
+		out = append(out, 10000+c.R.Intn(999990000), 4*(2500+c.R.Intn(247497500)), 100*(100+c.R.Intn(9999900)), 400*(25+c.R.Intn(2499975)))
+	}
+	return out
 }
 
 // dateIsZeroValue: the zero Date is 0001-01-01.
